@@ -15,18 +15,20 @@ LEVEL_TEXT = ('Lean 4 theorems, for all shapes, masks, amplitudes and OPDs: a su
               'restricted to s (slice_offset regenerated from helper.py on every run); the phasors of masks with pairwise disjoint supports '
               'add up to the phasor of the global mask, also with overlapping bounding boxes; a plane multiplies the summed embedding by its '
               'transmission, so chains of planes give the same total field for both descriptions; propagate_dft is additive in the embedded '
-              'field; intensity is the squared modulus of the coherent sum; composed end to end (segmented_eq_monolithic_end_to_end): fresh wavefront, '
+              'field; intensity is the squared modulus of the coherent sum; composed end to end (segmented_eq_monolithic_end_to_end): '
               'a fresh wavefront through any non-empty chain of array-masked partitioned planes, then propagate_dft as the driver models it (generated window block and shapes, a tilt shift common to all fields, optional output mask: segmented_eq_monolithic_propagateDft) -> equal Wavefront.field and intensity at every sample; well-formedness follows from the masks alone for constructed planes (splitPlane_wf_of_masks); Tilt planes anywhere in the chain and Wavefront(tilt=) as ONE theorem (segmented_eq_monolithic_interleaved: every field carries each Tilt once, data unchanged); through propagate_fft by composition with C09 (segmented_eq_monolithic_propagate_fft); chain_exp: the explicit product of amplitude*exp(2 pi i opd/lambda) over the planes. The NumPy plumbing is a hand model checked against the '
               'implementation, with both descriptions run on the real code.')
 LEVEL_NOTE = ('Partial: segments / intermediate fields with exactly one element are excluded by hypothesis (open known finding '
-              'KF-C03-one-pixel-segment); propagation is modelled for tilt-free fields without output mask (tilt and masks: C04, C02). '
+              'KF-C03-one-pixel-segment; the hypothesis ExtOK is evaluated by the model on every generated case: c03.extok, extOKb_iff); the theorems '
+              'cover a shift common to all fields (shared Tilt planes, Wavefront(tilt=)), an output mask and propagate_fft (via C09); per-segment '
+              'fitted tilts are correspondence + oracle only. '
               'Trusted: Lean kernel, py2lean subset semantics, NumPy semantics as modelled, np.dot sums, generator coverage.')
 TECHNIQUE = 'Lean 4 proof (omega/induction/Finset sums) over translator-regenerated kernels + hand model with differential correspondence'
-GEN = ['Extent', 'FieldIdx', 'Helper', 'Window', 'PlanePhase', 'PropagateMeta', 'FieldMerge', 'FieldDispatch', 'FieldAccum']
+GEN = ['Extent', 'FftScratch', 'FieldDispatch', 'FieldIdx', 'FieldMerge', 'FourierWiring', 'Helper', 'Helper20', 'Hex', 'Mesh', 'PlaneHandover', 'PlanePhase', 'PlanePx', 'PlaneType', 'PropagateMeta', 'TiltFit', 'Util', 'Window', 'WfViews', 'FieldAccum']
 OPS = ['C07', 'C03']
 RULE = ('cases: random supports on shapes 2..10, partitions into 1..9 segments (random labels = overlapping bounding boxes in half the cases, '
         'bands otherwise), chains of 1..3 masked planes (Pupil; also Image or plain Plane chains) with scalar/array amplitude and OPD, each plane described segmented or '
-        'monolithic, then propagate_dft with random per-axis sampling (mixed Tilt/segmented chains also with an output mask); plus 3..5 tilted segments (OPD ramps fitted by fit_tilt) propagated with prop_shape < shape so that the per-segment output fields overlap as chains, oversampling 1..3, output shape and prop_shape; exact stream '
+        'monolithic, then propagate_dft with random per-axis sampling (mixed Tilt/segmented chains also with an output mask and single-sample windows); plane objects re-used after setters/copy and rescaled/resampled (oracle-only); an extremes stream (physical units with per-segment OPD classes incl. nanometres, apertures of 1030..2600 rows vs bands <= 1024 rows; 5 % of quick/thorough, half of the failing-input search); plus 3..5 tilted segments (OPD ramps fitted by fit_tilt) propagated with prop_shape < shape so that the per-segment output fields overlap as chains, oversampling 1..3, output shape and prop_shape; exact stream '
         '(no propagation, Gaussian-integer data) and float stream. distinct = canonical (shapes, partition, attribute kinds, propagation '
         'setting) signature; non-trivial = some plane has at least two segments')
 TRUSTED = ['NumPy slicing/broadcasting in Plane.multiply and util.boundary (modelled by hand in Model/Plane.lean)',
@@ -35,9 +37,10 @@ TRUSTED = ['NumPy slicing/broadcasting in Plane.multiply and util.boundary (mode
 UNPROVEN = [
             'per-segment FITTED tilts (fit_tilt: a different shift per field, windows that crop each segment differently) have no segmented = monolithic theorem — with prop_shape < shape the two descriptions are genuinely different computations; that class is covered by correspondence (c03.chain over builderB Model/Propagate.lean, Model/Tilt.lean) and by the oracle (coherent sum; windowed chip = window of the full propagation), tilt-as-metadata = tilt-in-OPD is C04',
             'the end-to-end theorems start from a fresh wavefront and use planes with array masks (scalar-mask planes inside the chain: plane_multiply_total only)',
-            'planes re-used after the amplitude/OPD setters and copy(): oracle only; rescale/resample of a plane is C17',
+            'planes re-used after the amplitude/OPD setters and copy(), and rescaled/resampled planes (bounding slices of the new mask): oracle only; the interpolation itself is C17',
             'partitions containing a segment (or producing an intermediate field) with exactly one element (known finding KF-C03-one-pixel-segment)']
-ASSUMPTIONS = ['every segment bounding box and every intersection of boxes along the chain has more than one element (ExtOK: a condition on the bounding slices and shapes of the input, used by segmented_eq_monolithic_end_to_end)',
+ASSUMPTIONS = ['rescaled/resampled planes are judged only when Plane.rescale returns: for small segments the order-0 rescaled mask can lose a layer and rescale then raises IndexError in _plane_slice (C17; reported)',
+               'every segment bounding box and every intersection of boxes along the chain has more than one element (ExtOK: a condition on the bounding slices and shapes of the input, used by segmented_eq_monolithic_end_to_end)',
                'segment masks of one plane have pairwise disjoint supports']
 
 def _split_plane(rng, mode, shape):
@@ -221,7 +224,8 @@ def gen_reuse(rng):
         new_amp = H7._attr(rng, 'gi', 'amp', shape, False); new_opd = H7._attr(rng, 'gi', 'opd', shape, bool(rng.integers(0, 3) == 0))
         if not H7._ok_layer(np.array(new_amp['v']).reshape(shape) != 0): continue
         for p in (a, b): p['px'] = [1.0, 1.0]; p['fl'] = 3.0
-        return {'kind': 'reuse', 'mode': 'gi', 'wavelength': H7.WL_GI, 'seg': a, 'mono': b, 'new_amp': new_amp, 'new_opd': new_opd}
+        return {'kind': 'reuse', 'mode': 'gi', 'wavelength': H7.WL_GI, 'seg': a, 'mono': b, 'new_amp': new_amp, 'new_opd': new_opd,
+                'scale': float(rng.choice([2.0, 3.0, 1.5, 0.75])), 'how': 'rescale' if rng.integers(0, 2) else 'resample'}
     raise RuntimeError('generator could not build a reuse case')
 
 def gen_mixed(rng):
@@ -283,7 +287,7 @@ def generate(rng, tier):
             out.append(gen_big(rng) if k % 10 == 0 else gen_phys(rng, prop=bool(k % 4))); continue
         if tier != 'search' and k % 20 == 19:
             out.append(gen_big(rng) if k % 100 == 19 else gen_phys(rng, prop=bool(k % 40 == 19))); continue
-        if k % 50 == 11:
+        if k % 25 == 11:
             out.append(gen_reuse(rng)); continue
         if k % 7 == 6:
             out.append(gen_tilt(rng)); continue
@@ -311,7 +315,7 @@ def nontrivial(c):
     return any(len(p['mask']['layers']) > 1 for p in c['seg'])
 
 def tags(c):
-    if c['kind'] == 'reuse': return ['plane-reused-after-setters-and-copy']
+    if c['kind'] == 'reuse': return ['plane-reused-after-setters-and-copy', 'plane-' + c.get('how', 'rescale') + 'd']
     if c['kind'] == 'mixed':
         idx = [i for i, x in enumerate(c['order']) if not isinstance(x, dict)]
         before = bool(c['wtilt']) or any(isinstance(x, dict) for x in c['order'][:idx[0]])
@@ -406,7 +410,25 @@ def _run_reuse(c):
         again = lentil.Wavefront(wl) * P
         cp = lentil.Wavefront(wl) * P.copy()
         fresh = lentil.Wavefront(wl) * H7.build_plane(dict(c[name], amp=c['new_amp'], opd=c['new_opd']), 'gi', wl)
-        out[name] = {'again': H7.arr_out(again.field, 'gi'), 'copy': H7.arr_out(cp.field, 'gi'), 'fresh': H7.arr_out(fresh.field, 'gi'),
+        # rescale / resample return a new plane whose bounding slices must be those of the NEW mask (not the old `_slice`)
+        P0 = H7.build_plane(c[name], 'gi', wl)
+        sc = c.get('scale', 2.0)
+        try:
+            P2 = P0.rescale(sc) if c.get('how', 'rescale') == 'rescale' else P0.resample(P0.pixelscale[0] / sc)
+        except IndexError:
+            # a small segment can vanish from the order-0 rescaled mask and `_plane_slice` then raises: C17's domain (reported);
+            # here the class only asks that a rescaled plane, when there is one, carries the slices of its new mask
+            P2 = None
+        cls = type(P2) if P2 is not None else None
+        resc = None
+        if P2 is not None:
+            kw = dict(amplitude=P2.amplitude, opd=P2.opd, mask=P2.mask, pixelscale=P2.pixelscale)
+            if cls is lentil.Pupil: kw['focal_length'] = P2.focal_length
+            F2 = cls(**kw)
+            r2 = lentil.Wavefront(wl) * P2; f2 = lentil.Wavefront(wl) * F2
+            resc = {'same_field': bool(np.array_equal(r2.field, f2.field)), 'same_int': bool(np.array_equal(r2.intensity, f2.intensity)),
+                    'shape': [int(x) for x in r2.shape], 'nfields': len(r2.data), 'nfresh': len(f2.data)}
+        out[name] = {'rescaled': resc, 'again': H7.arr_out(again.field, 'gi'), 'copy': H7.arr_out(cp.field, 'gi'), 'fresh': H7.arr_out(fresh.field, 'gi'),
                      'again_I': H7.arr_out(again.intensity, 'gi'), 'fresh_I': H7.arr_out(fresh.intensity, 'gi'), 'first_shape': list(first.shape)}
     return out
 
@@ -471,7 +493,9 @@ def requests(c, io):
               'seg_tilts': [[vlib.fl(t) for t in l] for l in io['pre']['seg_tilts']]}
         return [{'op': 'c03.chain', 'wavelength': vlib.fbits(c['wavelength']), 'wtilt': None, 'elements': [pl],
                  'prop': {'dx': vlib.fl(c['dx']), 'du': vlib.fl(c['du']), 'os': c['os'], 'shape': [c['oshape']] * 2, 'prop_shape': [c['pshape']] * 2}}]
-    return [_req(c, c['seg']), _req(c, c['mono'])]
+    # third/fourth request: the theorems' input-level hypothesis ExtOK evaluated by the model on both descriptions
+    ext = [{'op': 'c03.extok', 'planes': [H7.plane_req(dict(p, px=None), 'cf' if c['mode'] == 'cf' else 'gi') for p in pl]} for pl in (c['seg'], c['mono'])]
+    return [_req(c, c['seg']), _req(c, c['mono'])] + (ext if c['mode'] == 'cf' else [])
 
 def _scale(c, key='field', pre=False):
     """bound on the compared quantity (tolerance = 1e-9*(1 + this)): |field| <= prod max|amp| before propagation and
@@ -527,7 +551,10 @@ def compare(c, io, mo):
         return _cmp_chain(io['pre']['fields'], io['field'], io['intensity'], mo[0], (max(1.0, a), max(1.0, a) * n))
     if 'exc' in io: return f"implementation raised {io['exc']}: {io.get('msg')}"
     mode = c['mode']; sc = _scale(c)
-    for name, m in zip(('seg', 'mono'), mo):
+    for name, m in zip(('seg', 'mono'), mo[2:]):
+        if not m.get('ok') or m.get('extok') is not True:
+            return f'{name}: the generator\'s scope test (no one-element field) and the theorems\' hypothesis ExtOK disagree: model says {m}'
+    for name, m in zip(('seg', 'mono'), mo[:2]):
         if not m.get('ok'): return f"model refused ({m.get('err')})"
         a = io[name]
         pre = m['pre'] if 'prop' in c else m
@@ -583,6 +610,9 @@ def oracle(c, io):
     if c['kind'] == 'reuse':
         for name in ('seg', 'mono'):
             r = io[name]
+            q = r['rescaled']
+            if q is not None and (not (q['same_field'] and q['same_int']) or q['nfields'] != q['nfresh']):
+                return f"{name}: a {c.get('how')}d plane (scale {c.get('scale')}) does not act like a plane freshly constructed from its attributes (stale bounding slices?): {q}"
             if r['again'] != r['fresh']: return f'{name}: a plane given new amplitude/OPD through the setters does not act like a freshly constructed one'
             if r['copy'] != r['fresh']: return f'{name}: the copy of a re-assigned plane does not act like a freshly constructed one'
             if r['again_I'] != r['fresh_I']: return f'{name}: intensity after re-assignment differs from the fresh plane'
